@@ -40,8 +40,9 @@ for name in names:
         for check in [pid] + also:
             env = dict(os.environ, VERIF_REPO_SRC=scratch + "/src", VERIF_NO_EVIDENCE="1")
             p = subprocess.run(["./check", check], cwd=ROOT, env=env, capture_output=True, text=True)
-            mechs = sorted(set(re.findall(r"violation mechanism=(\S+)", p.stdout)))
-            detected[check] = {"exit": p.returncode, "mechanisms": mechs[:6]}
+            found = re.findall(r"violation mechanism=(\S+) count=(\d+)", p.stdout)
+            mechs = sorted({m for m, _ in found})
+            detected[check] = {"exit": p.returncode, "mechanisms": mechs[:6], "violating_cases": sum(int(c) for _, c in found)}
         meta["detected_by"] = detected
         json.dump(meta, open(meta_p, "w"), indent=1)
         main = detected[pid]
